@@ -479,6 +479,162 @@ theorem specRest_share (dev : Nat) (S : List Obj) (reps : List (Key × Nat × Na
         | fifo l a => simp only [specRest]; rw [inoAt_cons_ne _ _ _ hnx, inoAt_cons_ne _ _ _ hny]; exact ih _ _ _ hlocs.2 hx hy
         | dev l a c mj mn => simp only [specRest]; rw [inoAt_cons_ne _ _ _ hnx, inoAt_cons_ne _ _ _ hny]; exact ih _ _ _ hlocs.2 hx hy
 
+/-! ## the converse: files of different classes never share an inode -/
+
+/-- bookkeeping of the representative table: every stored inode is below the counter and distinct keys hold
+distinct inodes -/
+structure RepsOK (reps : List (Key × Nat × Nat)) (next : Nat) : Prop where
+  lt : ∀ k i d, reps.lookup k = some (i, d) → i < next
+  inj : ∀ k k' i d d', reps.lookup k = some (i, d) → reps.lookup k' = some (i, d') → k = k'
+
+theorem repsOK_put (reps : List (Key × Nat × Nat)) (next : Nat) (k : Key) (d : Nat) (h : RepsOK reps next) :
+    RepsOK (repPut reps k (next, d)) (next + 1) := by
+  refine ⟨?_, ?_⟩
+  · intro k' i d' hl
+    rw [lookup_repPut] at hl
+    split at hl
+    · cases hl; exact Nat.lt_succ_self _
+    · exact Nat.lt_succ_of_lt (h.lt k' i d' hl)
+  · intro k1 k2 i d1 d2 h1 h2
+    rw [lookup_repPut] at h1 h2
+    split at h1 <;> split at h2
+    · rename_i e1 e2; rw [e1, e2]
+    · cases h1; exact absurd (h.lt _ _ _ h2) (Nat.lt_irrefl _)
+    · cases h2; exact absurd (h.lt _ _ _ h1) (Nat.lt_irrefl _)
+    · exact h.inj _ _ _ _ _ h1 h2
+
+/-- where the inode of a file of the list comes from: the table (through the file's own key) or the counter -/
+theorem specRest_ino_src (dev : Nat) (S : List Obj) (reps : List (Key × Nat × Nat)) (next nsrc : Nat)
+    (hlocs : (S.map Obj.loc).Nodup) (y : File) (hy : .file y ∈ S) :
+    ∃ i, inoAt (specRest dev S reps next nsrc) y.loc = some i ∧
+      ((keySome y = true ∧ ∃ d, reps.lookup (keyOf y) = some (i, d)) ∨ next ≤ i) := by
+  induction S generalizing reps next nsrc with
+  | nil => simp at hy
+  | cons o rest ih =>
+    simp only [List.map_cons, List.nodup_cons] at hlocs
+    simp only [List.mem_cons] at hy
+    have hyne : Obj.file y ∈ rest → o.loc ≠ y.loc := fun hyr e =>
+      hlocs.1 (by rw [e]; exact List.mem_map_of_mem (f := Obj.loc) hyr)
+    have tail : ∀ (hne : o ≠ .file y), Obj.file y ∈ rest := fun hne => by
+      rcases hy with hy | hy
+      · exact absurd hy.symm hne
+      · exact hy
+    cases o with
+    | file z =>
+      simp only [specRest]
+      split
+      · rename_i i d hl hks
+        rcases hy with hy | hy
+        · cases hy
+          exact ⟨i, by simp [inoAt, Obj.loc, inodeOf], Or.inl ⟨hks, d, hl⟩⟩
+        · rw [inoAt_cons_ne _ _ _ (by exact hyne hy)]
+          exact ih reps next (nsrc + 1) hlocs.2 hy
+      · rcases hy with hy | hy
+        · cases hy
+          exact ⟨next, by simp [inoAt, Obj.loc, inodeOf], Or.inr (Nat.le_refl _)⟩
+        · rw [inoAt_cons_ne _ _ _ (by exact hyne hy)]
+          obtain ⟨i, hi, hsrc⟩ := ih (repPut reps (keyOf z) (next, z.data)) (next + 1) (nsrc + 1) hlocs.2 hy
+          refine ⟨i, hi, ?_⟩
+          rcases hsrc with ⟨hks, d, hl⟩ | hge
+          · rw [lookup_repPut] at hl
+            split at hl
+            · cases hl; exact Or.inr (Nat.le_refl _)
+            · exact Or.inl ⟨hks, d, hl⟩
+          · exact Or.inr (Nat.le_of_succ_le hge)
+    | dir l a =>
+      have hyr := tail (by intro e; cases e)
+      simp only [specRest]; rw [inoAt_cons_ne _ _ _ (by exact hyne hyr)]; exact ih reps next nsrc hlocs.2 hyr
+    | sym l t a =>
+      have hyr := tail (by intro e; cases e)
+      simp only [specRest]; rw [inoAt_cons_ne _ _ _ (by exact hyne hyr)]; exact ih reps next nsrc hlocs.2 hyr
+    | fifo l a =>
+      have hyr := tail (by intro e; cases e)
+      simp only [specRest]; rw [inoAt_cons_ne _ _ _ (by exact hyne hyr)]; exact ih reps next nsrc hlocs.2 hyr
+    | dev l a c mj mn =>
+      have hyr := tail (by intro e; cases e)
+      simp only [specRest]; rw [inoAt_cons_ne _ _ _ (by exact hyne hyr)]; exact ih reps next nsrc hlocs.2 hyr
+
+/-- two different names that come back with one inode were of one (dev, inode) class -/
+theorem specRest_share_conv (dev : Nat) (S : List Obj) (reps : List (Key × Nat × Nat)) (next nsrc : Nat)
+    (hok : RepsOK reps next) (hlocs : (S.map Obj.loc).Nodup) (x y : File) (hx : .file x ∈ S) (hy : .file y ∈ S)
+    (hne : x.loc ≠ y.loc)
+    (h : inoAt (specRest dev S reps next nsrc) x.loc = inoAt (specRest dev S reps next nsrc) y.loc) :
+    keyOf x = keyOf y ∧ keySome x = true := by
+  induction S generalizing reps next nsrc with
+  | nil => simp at hx
+  | cons o rest ih =>
+    have hlocs' := hlocs
+    simp only [List.map_cons, List.nodup_cons] at hlocs
+    -- the head is one of the two names
+    have headcase : ∀ (z w : File), o = .file z → .file w ∈ rest →
+        inoAt (specRest dev (.file z :: rest) reps next nsrc) z.loc
+          = inoAt (specRest dev (.file z :: rest) reps next nsrc) w.loc →
+        keyOf z = keyOf w ∧ keySome z = true ∧ keySome w = true := by
+      intro z w ho hw hzw
+      subst ho
+      have hwne : z.loc ≠ w.loc := fun e =>
+        hlocs.1 (by simp only [Obj.loc]; rw [e]; exact List.mem_map_of_mem (f := Obj.loc) hw)
+      simp only [specRest] at hzw
+      split at hzw
+      · rename_i i d hl hks
+        have hz : inoAt (Obj.file ⟨z.loc, z.a, some dev, some i, d, nsrc⟩ :: specRest dev rest reps next (nsrc + 1)) z.loc = some i := by
+          simp [inoAt, Obj.loc, inodeOf]
+        rw [hz, inoAt_cons_ne _ _ w.loc (by exact hwne)] at hzw
+        obtain ⟨i', hi', hsrc⟩ := specRest_ino_src dev rest reps next (nsrc + 1) hlocs.2 w hw
+        rw [hi'] at hzw
+        cases hzw
+        rcases hsrc with ⟨hkw, d', hl'⟩ | hge
+        · exact ⟨hok.inj _ _ _ _ _ hl hl', hks, hkw⟩
+        · exact absurd (hok.lt _ _ _ hl) (Nat.not_lt.mpr hge)
+      · have hz : inoAt (Obj.file ⟨z.loc, z.a, some dev, some next, z.data, nsrc⟩
+            :: specRest dev rest (repPut reps (keyOf z) (next, z.data)) (next + 1) (nsrc + 1)) z.loc = some next := by
+          simp [inoAt, Obj.loc, inodeOf]
+        rw [hz, inoAt_cons_ne _ _ w.loc (by exact hwne)] at hzw
+        obtain ⟨i', hi', hsrc⟩ := specRest_ino_src dev rest (repPut reps (keyOf z) (next, z.data)) (next + 1) (nsrc + 1) hlocs.2 w hw
+        rw [hi'] at hzw
+        cases hzw
+        rcases hsrc with ⟨hkw, d', hl'⟩ | hge
+        · rw [lookup_repPut] at hl'
+          split at hl'
+          · rename_i hk
+            exact ⟨hk.symm, by rw [keySome_of_key z w hk.symm]; exact hkw, hkw⟩
+          · exact absurd (hok.lt _ _ _ hl') (Nat.lt_irrefl _)
+        · exact absurd hge (Nat.not_succ_le_self _)
+    simp only [List.mem_cons] at hx hy
+    rcases hx with hx | hx
+    · rcases hy with hy | hy
+      · rw [← hx] at hy; cases hy; exact absurd rfl hne
+      · subst hx
+        have := headcase x y rfl hy h
+        exact ⟨this.1, this.2.1⟩
+    · rcases hy with hy | hy
+      · subst hy
+        have := headcase y x rfl hx h.symm
+        exact ⟨this.1.symm, this.2.2⟩
+      · have hnx : o.loc ≠ x.loc := fun e => hlocs.1 (by rw [e]; exact List.mem_map_of_mem (f := Obj.loc) hx)
+        have hny : o.loc ≠ y.loc := fun e => hlocs.1 (by rw [e]; exact List.mem_map_of_mem (f := Obj.loc) hy)
+        cases o with
+        | file z =>
+          simp only [specRest] at h
+          simp only [Obj.loc] at hnx hny
+          split at h
+          · rw [inoAt_cons_ne _ _ _ (by exact hnx), inoAt_cons_ne _ _ _ (by exact hny)] at h
+            exact ih _ _ _ hok hlocs.2 hx hy h
+          · rw [inoAt_cons_ne _ _ _ (by exact hnx), inoAt_cons_ne _ _ _ (by exact hny)] at h
+            exact ih _ _ _ (repsOK_put reps next (keyOf z) z.data hok) hlocs.2 hx hy h
+        | dir l a =>
+          simp only [specRest] at h; rw [inoAt_cons_ne _ _ _ hnx, inoAt_cons_ne _ _ _ hny] at h
+          exact ih _ _ _ hok hlocs.2 hx hy h
+        | sym l t a =>
+          simp only [specRest] at h; rw [inoAt_cons_ne _ _ _ hnx, inoAt_cons_ne _ _ _ hny] at h
+          exact ih _ _ _ hok hlocs.2 hx hy h
+        | fifo l a =>
+          simp only [specRest] at h; rw [inoAt_cons_ne _ _ _ hnx, inoAt_cons_ne _ _ _ hny] at h
+          exact ih _ _ _ hok hlocs.2 hx hy h
+        | dev l a c mj mn =>
+          simp only [specRest] at h; rw [inoAt_cons_ne _ _ _ hnx, inoAt_cons_ne _ _ _ hny] at h
+          exact ih _ _ _ hok hlocs.2 hx hy h
+
 /-! ## the directory prefix -/
 
 theorem readLoop_prefix (dev : Nat) (ds : List Obj) (ms : List Member) (st : RState)
@@ -601,5 +757,276 @@ theorem partition_perm (t : List Obj) :
       refine List.Perm.trans ?_ (List.Perm.cons _ ih)
       rw [List.append_assoc, List.append_assoc]
       exact List.perm_middle
+
+
+/-! ## relocation below symlinked directories (`convert_archive`) -/
+
+/-- members with one location are one member -/
+def LocInj (l : List Obj) : Prop := ∀ a ∈ l, ∀ b ∈ l, a.loc = b.loc → a = b
+
+theorem LocInj.mono {a b : List Obj} (h : LocInj b) (hs : ∀ x ∈ a, x ∈ b) : LocInj a :=
+  fun x hx y hy e => h x (hs x hx) y (hs y hy) e
+
+theorem withLoc_loc (e : Obj) (l : Str) : (withLoc e l).loc = l := by cases e <;> rfl
+theorem withLoc_self (e : Obj) : withLoc e e.loc = e := by cases e <;> rfl
+theorem withLoc_withLoc (e : Obj) (a b : Str) : withLoc (withLoc e a) b = withLoc e b := by cases e <;> rfl
+theorem withLoc_isSym (e : Obj) (l : Str) : (withLoc e l).isSym = e.isSym := by cases e <;> rfl
+theorem withLoc_isDir (e : Obj) (l : Str) : (withLoc e l).isDir = e.isDir := by cases e <;> rfl
+theorem withLoc_isReg (e : Obj) (l : Str) : (withLoc e l).isReg = e.isReg := by cases e <;> rfl
+
+/-- adding an entry whose location is either new or already held by the same entry -/
+theorem setAdd_spec (d : List Obj) (o : Obj) (hd : (d.map Obj.loc).Nodup) (h : ∀ x ∈ d, x.loc = o.loc → x = o) :
+    ((setAdd d o).map Obj.loc).Nodup ∧ ∀ y, y ∈ setAdd d o ↔ y ∈ d ∨ y = o := by
+  unfold setAdd
+  by_cases hany : d.any (·.loc == o.loc) = true
+  · rw [if_pos hany]
+    have hid : d.map (fun x => if (x.loc == o.loc) = true then o else x) = d := by
+      conv => rhs; rw [← List.map_id d]
+      apply List.map_congr_left
+      intro x hx
+      by_cases hl : x.loc = o.loc
+      · simp [hl, (h x hx hl)]
+      · have : (x.loc == o.loc) = false := by simpa using hl
+        simp [this]
+    rw [hid]
+    refine ⟨hd, fun y => ⟨Or.inl, fun hy => ?_⟩⟩
+    rcases hy with hy | hy
+    · exact hy
+    · obtain ⟨x, hx, hk⟩ := List.any_eq_true.mp hany
+      have hxo := h x hx (by simpa using hk)
+      rw [hy, ← hxo]; exact hx
+  · rw [if_neg hany]
+    have hno : o.loc ∉ d.map Obj.loc := by
+      intro hm
+      obtain ⟨x, hx, hl⟩ := List.mem_map.mp hm
+      exact hany (List.any_eq_true.mpr ⟨x, hx, by simp [hl]⟩)
+    refine ⟨?_, fun y => by simp⟩
+    rw [List.map_append, List.nodup_append]
+    refine ⟨hd, by simp, ?_⟩
+    intro a ha b hb
+    simp only [List.map_cons, List.map_nil, List.mem_singleton] at hb
+    intro e; rw [e, hb] at ha; exact hno ha
+
+theorem setUpdate_spec (d l : List Obj) (hd : (d.map Obj.loc).Nodup) (h : LocInj (d ++ l)) :
+    ((setUpdate d l).map Obj.loc).Nodup ∧ ∀ y, y ∈ setUpdate d l ↔ y ∈ d ∨ y ∈ l := by
+  induction l generalizing d with
+  | nil => exact ⟨hd, fun y => by simp [setUpdate]⟩
+  | cons p r ih =>
+    have hp := setAdd_spec d p hd (fun x hx e => h x (by simp [hx]) p (by simp) e)
+    have hstep : setUpdate d (p :: r) = setUpdate (setAdd d p) r := rfl
+    rw [hstep]
+    have hinj : LocInj (setAdd d p ++ r) := by
+      apply h.mono
+      intro x hx
+      rcases List.mem_append.mp hx with hx | hx
+      · rcases (hp.2 x).mp hx with hx | hx
+        · simp [hx]
+        · simp [hx]
+      · simp [hx]
+    obtain ⟨h1, h2⟩ := ih (setAdd d p) hp.1 hinj
+    refine ⟨h1, fun y => ?_⟩
+    rw [h2 y, hp.2 y]
+    simp only [List.mem_cons]
+    constructor
+    · rintro ((h | h) | h)
+      · exact Or.inl h
+      · exact Or.inr (Or.inl h)
+      · exact Or.inr (Or.inr h)
+    · rintro (h | h | h)
+      · exact Or.inl (Or.inl h)
+      · exact Or.inl (Or.inr h)
+      · exact Or.inr h
+
+theorem setOf_spec (l : List Obj) (h : LocInj l) : ((setOf l).map Obj.loc).Nodup ∧ ∀ y, y ∈ setOf l ↔ y ∈ l := by
+  have := setUpdate_spec [] l (by simp) (by simpa using h)
+  refine ⟨this.1, fun y => ?_⟩
+  have h2 := this.2 y
+  simpa [setOf, setUpdate] using h2
+
+/-- removing the children of `s` by location removes exactly the entries below `s` -/
+theorem setRemove_childNodes (t : List Obj) (s : Str) :
+    setRemove t (childNodes t s) = t.filter fun e => !isChild s e.loc := by
+  unfold setRemove childNodes
+  apply List.filter_congr
+  intro x hx
+  congr 1
+  cases hc : isChild s x.loc with
+  | true => exact List.any_eq_true.mpr ⟨x, List.mem_filter.mpr ⟨hx, hc⟩, by simp⟩
+  | false =>
+    rw [List.any_eq_false]
+    intro a ha hk
+    have hl : a.loc = x.loc := by simpa using hk
+    have := (List.mem_filter.mp ha).2
+    rw [hl, hc] at this
+    cases this
+
+/-- the entry `e` after the symlink `x` above it has been followed -/
+def mvBy (x e : Obj) : Obj := withLoc e (moveLoc x.loc (symTarget x) e.loc)
+
+/-- the symlink of the pass that moves `e`: the first one (in the order of the pass) that has `e` below it -/
+def mover (xs : List Obj) (e : Obj) : Option Obj := xs.find? fun x => isChild x.loc e.loc
+
+/-- one relocation pass seen from a single entry -/
+def stepObj (xs : List Obj) (e : Obj) : Obj :=
+  match mover xs e with
+  | some x => mvBy x e
+  | none => e
+
+/-- what a pass leaves in place -/
+def passKeep (xs t : List Obj) : List Obj := t.filter fun e => xs.all fun x => !isChild x.loc e.loc
+
+/-- what a pass re-adds -/
+def passAdds : List Obj → List Obj → List Obj
+  | [], _ => []
+  | x :: xs, t => changeOffset (childNodes t x.loc) x.loc (symTarget x)
+      ++ passAdds xs (t.filter fun e => !isChild x.loc e.loc)
+
+theorem relocate_eq (xs t adds : List Obj) : relocate xs t adds = (passKeep xs t, adds ++ passAdds xs t) := by
+  induction xs generalizing t adds with
+  | nil =>
+    simp only [relocate, passKeep, passAdds, List.all_nil, List.append_nil]
+    rw [List.filter_eq_self.mpr (fun _ _ => rfl)]
+  | cons x xs ih =>
+    have hstep : relocate (x :: xs) t adds
+        = relocate xs (t.filter fun e => !isChild x.loc e.loc) (adds ++ changeOffset (childNodes t x.loc) x.loc (symTarget x)) := by
+      simp only [relocate]
+      split
+      · rename_i hemp
+        have hnil : childNodes t x.loc = [] := by simpa using hemp
+        have hself : (t.filter fun e => !isChild x.loc e.loc) = t := by
+          rw [List.filter_eq_self]
+          intro e he
+          unfold childNodes at hnil
+          rw [List.filter_eq_nil_iff] at hnil
+          simpa using hnil e he
+        rw [hself, hnil]
+        simp [changeOffset, setOf]
+      · rw [setRemove_childNodes]
+    rw [hstep, ih]
+    simp only [passKeep, passAdds, List.filter_filter, List.all_cons, List.append_assoc]
+    congr 1
+    apply List.filter_congr
+    intro e _
+    simp [Bool.and_comm]
+
+theorem mem_passKeep (xs t : List Obj) (o : Obj) : o ∈ passKeep xs t ↔ o ∈ t ∧ mover xs o = none := by
+  unfold passKeep mover
+  rw [List.mem_filter, List.find?_eq_none]
+  simp
+
+theorem mem_passAdds (xs t : List Obj)
+    (hinj : ∀ e1 ∈ t, ∀ e2 ∈ t, ∀ x, mover xs e1 = some x → mover xs e2 = some x →
+      (mvBy x e1).loc = (mvBy x e2).loc → e1 = e2) :
+    ∀ o, o ∈ passAdds xs t ↔ ∃ e ∈ t, ∃ x, mover xs e = some x ∧ o = mvBy x e := by
+  induction xs generalizing t with
+  | nil => intro o; simp [passAdds, mover]
+  | cons x xs ih =>
+    intro o
+    have hfirst : ∀ e, isChild x.loc e.loc = true → mover (x :: xs) e = some x := fun e he => by
+      simp [mover, List.find?, he]
+    have hlater : ∀ e, isChild x.loc e.loc = false → mover (x :: xs) e = mover xs e := fun e he => by
+      simp [mover, List.find?, he]
+    -- the entries below `x`
+    have hco : ∀ o, o ∈ changeOffset (childNodes t x.loc) x.loc (symTarget x)
+        ↔ ∃ e ∈ t, isChild x.loc e.loc = true ∧ o = mvBy x e := by
+      intro o
+      have hli : LocInj ((childNodes t x.loc).map fun e => withLoc e (moveLoc x.loc (symTarget x) e.loc)) := by
+        intro a ha b hb hab
+        obtain ⟨e1, he1, rfl⟩ := List.mem_map.mp ha
+        obtain ⟨e2, he2, rfl⟩ := List.mem_map.mp hb
+        have h1 := List.mem_filter.mp he1
+        have h2 := List.mem_filter.mp he2
+        have := hinj e1 h1.1 e2 h2.1 x (hfirst e1 h1.2) (hfirst e2 h2.2) hab
+        rw [this]
+      unfold changeOffset
+      rw [(setOf_spec _ hli).2 o, List.mem_map]
+      constructor
+      · rintro ⟨e, he, rfl⟩
+        exact ⟨e, (List.mem_filter.mp he).1, (List.mem_filter.mp he).2, rfl⟩
+      · rintro ⟨e, he, hc, rfl⟩
+        exact ⟨e, List.mem_filter.mpr ⟨he, hc⟩, rfl⟩
+    have hrest := ih (t.filter fun e => !isChild x.loc e.loc) (by
+      intro e1 h1 e2 h2 x' m1 m2 hl
+      have c1 : isChild x.loc e1.loc = false := by simpa using (List.mem_filter.mp h1).2
+      have c2 : isChild x.loc e2.loc = false := by simpa using (List.mem_filter.mp h2).2
+      exact hinj e1 (List.mem_filter.mp h1).1 e2 (List.mem_filter.mp h2).1 x'
+        (by rw [hlater e1 c1]; exact m1) (by rw [hlater e2 c2]; exact m2) hl) o
+    simp only [passAdds, List.mem_append, hco o, hrest]
+    constructor
+    · rintro (⟨e, he, hc, rfl⟩ | ⟨e, he, x', hm, rfl⟩)
+      · exact ⟨e, he, x, hfirst e hc, rfl⟩
+      · have c : isChild x.loc e.loc = false := by simpa using (List.mem_filter.mp he).2
+        exact ⟨e, (List.mem_filter.mp he).1, x', by rw [hlater e c]; exact hm, rfl⟩
+    · rintro ⟨e, he, x', hm, rfl⟩
+      cases hc : isChild x.loc e.loc with
+      | true =>
+        rw [hfirst e hc] at hm
+        cases hm
+        exact Or.inl ⟨e, he, hc, rfl⟩
+      | false =>
+        rw [hlater e hc] at hm
+        exact Or.inr ⟨e, List.mem_filter.mpr ⟨he, by simp [hc]⟩, x', hm, rfl⟩
+
+/-- **one pass**: every entry makes the step `stepObj` says, nothing else happens -/
+theorem pass_spec (xs t : List Obj) (hnd : (t.map Obj.loc).Nodup)
+    (hinj : ∀ e1 ∈ t, ∀ e2 ∈ t, (stepObj xs e1).loc = (stepObj xs e2).loc → e1 = e2) :
+    (((setUpdate (relocate xs t []).1 (relocate xs t []).2).map Obj.loc).Nodup ∧
+      ∀ o, o ∈ setUpdate (relocate xs t []).1 (relocate xs t []).2 ↔ ∃ e ∈ t, o = stepObj xs e) ∧
+    ((relocate xs t []).2 = [] ↔ ∀ e ∈ t, mover xs e = none) ∧
+    ((relocate xs t []).2 = [] → (relocate xs t []).1 = t) := by
+  rw [relocate_eq]
+  simp only [List.nil_append]
+  have hadds := mem_passAdds xs t (by
+    intro e1 h1 e2 h2 x m1 m2 hl
+    apply hinj e1 h1 e2 h2
+    simp only [stepObj, m1, m2]
+    exact hl)
+  have hmem : ∀ o, o ∈ passKeep xs t ∨ o ∈ passAdds xs t ↔ ∃ e ∈ t, o = stepObj xs e := by
+    intro o
+    rw [mem_passKeep, hadds o]
+    constructor
+    · rintro (⟨ho, hm⟩ | ⟨e, he, x, hm, rfl⟩)
+      · exact ⟨o, ho, by simp [stepObj, hm]⟩
+      · exact ⟨e, he, by simp [stepObj, hm]⟩
+    · rintro ⟨e, he, rfl⟩
+      cases hm : mover xs e with
+      | none => left; rw [show stepObj xs e = e by simp [stepObj, hm]]; exact ⟨he, hm⟩
+      | some x => right; exact ⟨e, he, x, hm, by simp [stepObj, hm]⟩
+  have hli : LocInj (passKeep xs t ++ passAdds xs t) := by
+    intro a ha b hb hab
+    obtain ⟨e1, h1, rfl⟩ := (hmem a).mp (List.mem_append.mp ha)
+    obtain ⟨e2, h2, rfl⟩ := (hmem b).mp (List.mem_append.mp hb)
+    rw [hinj e1 h1 e2 h2 hab]
+  have hkeep : ((passKeep xs t).map Obj.loc).Nodup := (List.filter_sublist.map Obj.loc).nodup hnd
+  have hsu := setUpdate_spec _ _ hkeep hli
+  refine ⟨⟨hsu.1, fun o => by rw [hsu.2 o, hmem o]⟩, ?_, ?_⟩
+  · constructor
+    · intro hnil e he
+      cases hm : mover xs e with
+      | none => rfl
+      | some x =>
+        have : mvBy x e ∈ passAdds xs t := (hadds _).mpr ⟨e, he, x, hm, rfl⟩
+        rw [hnil] at this
+        cases this
+    · intro hall
+      apply List.eq_nil_iff_forall_not_mem.mpr
+      intro o ho
+      obtain ⟨e, he, x, hm, _⟩ := (hadds o).mp ho
+      rw [hall e he] at hm
+      cases hm
+  · intro hnil
+    unfold passKeep
+    rw [List.filter_eq_self]
+    intro e he
+    have hm : mover xs e = none := by
+      cases hm : mover xs e with
+      | none => rfl
+      | some x =>
+        have : mvBy x e ∈ passAdds xs t := (hadds _).mpr ⟨e, he, x, hm, rfl⟩
+        rw [hnil] at this
+        cases this
+    unfold mover at hm
+    rw [List.find?_eq_none] at hm
+    simpa using hm
 
 end Pkgcore.C25
